@@ -575,7 +575,6 @@ package hclsyntax
 // step ends.
 // verif:func makeRelativeTraversal
 //@ nosafety
-//@ requires expr != nil
 //@ ensures scope: typeis(expr, ptr(ScopeTraversalExpr)) ==> ret == expr && unbox(expr, ptr(ScopeTraversalExpr)).SrcRange.Start == old(unbox(expr, ptr(ScopeTraversalExpr)).SrcRange.Start) && unbox(expr, ptr(ScopeTraversalExpr)).SrcRange.End == rng.End
 //@ ensures rel: typeis(expr, ptr(RelativeTraversalExpr)) ==> ret == expr && unbox(expr, ptr(RelativeTraversalExpr)).SrcRange.Start == old(unbox(expr, ptr(RelativeTraversalExpr)).SrcRange.Start) && unbox(expr, ptr(RelativeTraversalExpr)).SrcRange.End == rng.End
 //@ ensures other: !typeis(expr, ptr(ScopeTraversalExpr)) && !typeis(expr, ptr(RelativeTraversalExpr)) ==> typeis(ret, ptr(RelativeTraversalExpr)) && fresh(unbox(ret, ptr(RelativeTraversalExpr))) && unbox(ret, ptr(RelativeTraversalExpr)).Source == expr && unbox(ret, ptr(RelativeTraversalExpr)).SrcRange.End == rng.End
